@@ -83,11 +83,12 @@ Theorem reconstruction_law :
 Proof. exact step_reconstruction. Qed.
 Print Assumptions reconstruction_law.
 
-(* At most one notification per operation, exactly one when the mapping
+(* At most one notification per mutating operation, exactly one when the mapping
    changed; every notifier (also one registered after an observe() handler)
    receives the same event, and the observer's event is its merge. *)
 Theorem one_event_per_change :
   forall (kv vv : Z -> option Z) (tgt : target) (m : amap) (o : op),
+    is_ctor o = false ->
     let ob := step kv vv tgt m o in
     (length (o_events ob) <= 1)%nat /\
     ((exists k, lookup k m <> lookup k (o_after ob)) -> exists e, o_events ob = [e]) /\
@@ -95,6 +96,18 @@ Theorem one_event_per_change :
     o_oevents ob = map (factory (o_after ob)) (o_events ob).
 Proof. exact step_event_count. Qed.
 Print Assumptions one_event_per_change.
+
+(* Construction (TraitDict(items, validators) / assignment to a Dict trait): the new dict is exactly
+   dict(validated items) — first rejection aborts and leaves the old object —, and nobody is notified. *)
+Theorem construction_is_dict_of_validated_items :
+  forall (kv vv : Z -> option Z) (tgt : target) (m : amap) (a : bool) (ps : list (Z * Z)),
+    let ob := step kv vv tgt m (Ctor a ps) in
+    match validate_pairs kv vv (items_of a ps) with
+    | Some vps => o_out ob = Ok /\ o_after ob = update_all vps []
+    | None => o_out ob = Raise TraitError /\ o_after ob = m
+    end /\ o_events ob = [] /\ o_events2 ob = [] /\ o_oevents ob = [].
+Proof. exact ctor_spec. Qed.
+Print Assumptions construction_is_dict_of_validated_items.
 
 (* An event for an operation that leaves the mapping as it was (d[k] = d[k])
    is an identity event: nothing removed, nothing added, changed keys keep their values. *)
